@@ -16,6 +16,7 @@ LEVEL_TEXT = ("Dataflow and CFG-shape rules on the MIR of the scoped-variable co
 LEVEL_NOTE = ("Not decided: that equal 32-bit ids mean the same syntax node in tree-sitter (assumption: the low 32 bits of node ids are "
               "injective within a tree), and the values observed by programs.")
 LEVEL_TEXT += (" Also: (S) a strict scoped definition/assignment writes the variable map of the evaluated scope node itself (inheritance applies to reads only); (F) forcing window of the lazy scoped store: between Forcing and Forced only the cell's own values are evaluated, a re-entrant read is RecursivelyDefinedScopedVariable; (E5.var) VariableMap::add refuses every second definition whatever the mutability flags; (E6.p) all scoped definitions are forced before the lazy run returns.")
+LEVEL_TEXT += (" (E5.mut) `let` scoped variables are immutable, `var` mutable, in both modes; (E5.file) every `inherit` declaration adds to the file's set (never replaces it).")
 
 
 def _good_key(a):
